@@ -275,7 +275,9 @@ def shape_unfresh_pruning():
                     ]
                 },
             },
-            "C": [["nop"], ["nop"], ["nop"], ["nop"], ["nop"], ["nop"], ["amend", {"inp": ["p.txt"]}], ["read", "p.txt"],
+            # reads first, declares afterwards (which amend() allows): what it read is only valid if the
+            # producer had stopped before this command started
+            "C": [["read", "p.txt", "optional"], ["nop"], ["nop"], ["nop"], ["nop"], ["nop"], ["nop"], ["amend", {"inp": ["p.txt"]}], ["read", "p.txt"],
                   ["read_declared"], ["write_declared"]],
             "P": GENERIC_WORKER,
             "D": [["nop"], ["nop"], ["nop"], ["nop"], ["nop"], ["nop"], ["nop"], ["nop"], ["read_declared"], ["write_declared"]],
